@@ -23,7 +23,10 @@ fn gen_def(p: &mut Pool) -> OptSpec {
             fields.push(p.named_field());
         }
     }
-    if p.rng.chance(1, 2) {
+    if p.rng.chance(1, 6) && fields.len() < 9 {
+        // adjacent subcommand chain: `cmd1 --a cmd2 --b cmd1 ..`
+        fields.push(p.adjacent_command_chain());
+    } else if p.rng.chance(1, 2) {
         fields.extend(p.positionals(2));
     }
     OptSpec::plain(Spec::Seq(fields))
@@ -352,6 +355,13 @@ pub fn run_case(case: &mut Case) {
             bl.dedup();
             bl.len()
         };
+        let chain = units
+            .iter()
+            .filter(|u| matches!(u.kind, UKind::CmdName { .. }))
+            .count();
+        if chain > 0 {
+            case.rep.count(&format!("adjacent-command-chain:{}", chain.min(3)));
+        }
         let class = format!("contiguous-blocks:{}", nblocks.min(3));
         if !b.expect_value(case, &line.argv, &d.value, &class, "blocks") {
             continue;
